@@ -8,6 +8,9 @@ def _drop(srcs, avoid):
     return [s for s in srcs if s not in avoid]
 
 
+QUERY_LOG = None     # set to a list by the thorough tier: every reachability query is recorded for re-checking
+
+
 def path_avoiding(cfg, srcs, dsts, avoid, avoid_edge_kinds=()):
     '''Witness path from any src to any dst that touches no node in `avoid` (sources inside avoid
     are dropped; destinations are allowed to be in avoid only if listed in dsts).'''
@@ -15,10 +18,16 @@ def path_avoiding(cfg, srcs, dsts, avoid, avoid_edge_kinds=()):
     dsts = set(dsts if isinstance(dsts, (list, tuple, set)) else [dsts])
     avoid = set(avoid)
     srcs = _drop(srcs, avoid)
+    res = None
     for s in srcs:
         if s in dsts:
-            return [s]
-    return cfg.find_path(srcs, dsts, avoiding=avoid, avoid_edge_kinds=avoid_edge_kinds)
+            res = [s]
+            break
+    if res is None:
+        res = cfg.find_path(srcs, dsts, avoiding=avoid, avoid_edge_kinds=avoid_edge_kinds)
+    if QUERY_LOG is not None and not avoid_edge_kinds:
+        QUERY_LOG.append((cfg, tuple(srcs), frozenset(dsts), frozenset(avoid), res is not None))
+    return res
 
 
 def body_entries(cfg, loop_stmt):
